@@ -7,7 +7,7 @@ import bt_impl
 import rd_impl
 from bt_impl import spec_str
 
-NAMES = ["A", "A", "B", "Check", "Check*", "Check**", "x~y", "Go^Home", "A*", "B", "long~name~here", "^", "A^B"]
+NAMES = ["A", "A", "B", "Check", "Check*", "Check**", "x~y", "Go^Home", "A*", "B", "long~name~here", "^", "A^B", "A~B", "Go~Home", "x^y"]   # incl. names differing only by blank vs newline
 
 
 def viol(clause, detail, **sig):
@@ -60,6 +60,9 @@ class C20(Prop):
                 for vis in range(4):
                     for col in "01":
                         ops.append("dot %d %s" % (vis, col))
+                if i % 6 == 0 and "^" not in d_str(d):
+                    # render_dot_tree (slow: graphviz); names with newlines do not survive re-reading the file
+                    ops.append("dotfile %d %s" % (rng.randrange(4), rng.choice("01")))
                 out.append(Scenario("rd", "C20_%s_%d" % (tier[0], i), ["dtree " + d_str(d)], ops,
                                     {"d": d, "mode": rng.choice(["ascii", "ascii", "xhtml"])}))
             else:
@@ -134,6 +137,21 @@ class C20(Prop):
                                     % (" ".join(cur), len(got), len(d_nodes(top)))))
                 elif got != exp:
                     out.append(viol("text-order-indent", "text tree %s, expected %s" % (got[:6], exp[:6])))
+            elif l.startswith("NC ") or l.startswith("EC "):
+                vis, col = int(cur[1]), cur[2] == "1"
+                cnt = []
+
+                def disp2(x):
+                    cnt.append(x)
+                    if (x[2] and col) or not (vis < x[1]):
+                        return
+                    for k in x[3]:
+                        disp2(k)
+                disp2(d)
+                want = len(cnt) if l.startswith("NC ") else len(cnt) - 1
+                if int(l[3:]) != want:
+                    out.append(viol("dot-file", "render_dot_tree(vis=%d, collapse=%s) wrote %s for %d displayed behaviours"
+                                    % (vis, col, l, len(cnt))))
             elif l.startswith("N "):
                 names = l[2:].split()
                 vis, col = int(cur[1]), cur[2] == "1"
